@@ -211,6 +211,65 @@ def build_tables(rng) -> dict:
     }
 
 
+def build_queue_facts() -> dict:
+    """AST of `_RpcThread` (qmi/core/rpc.py): how the request queue is constructed and used.  The model has an unbounded FIFO
+    (every delivered request is eventually handled, in order); anything else must fail the obligation or fail loudly here."""
+    import ast
+    tree = ast.parse((core.REPO / "qmi" / "core" / "rpc.py").read_text())
+    consts = {}
+    for node in tree.body:
+        if isinstance(node, ast.Assign) and len(node.targets) == 1 and isinstance(node.targets[0], ast.Name) \
+                and isinstance(node.value, ast.Constant) and isinstance(node.value.value, int):
+            consts[node.targets[0].id] = node.value.value
+    cls = next((n for n in tree.body if isinstance(n, ast.ClassDef) and n.name == "_RpcThread"), None)
+    if cls is None:
+        raise TranslatorError("class _RpcThread not found")
+    for node in cls.body:
+        if isinstance(node, ast.Assign) and len(node.targets) == 1 and isinstance(node.targets[0], ast.Name) \
+                and isinstance(node.value, ast.Constant) and isinstance(node.value.value, int):
+            consts["_RpcThread." + node.targets[0].id] = node.value.value
+    sites, appends, pops, other = [], 0, 0, []
+    for fn in cls.body:
+        if not isinstance(fn, ast.FunctionDef):
+            continue
+        for st in ast.walk(fn):
+            tgts = st.targets if isinstance(st, ast.Assign) else [st.target] if isinstance(st, (ast.AnnAssign, ast.AugAssign)) else []
+            for tg in tgts:
+                if _is_self_attr(tg, "_fifo"):
+                    sites.append((fn.name, st))
+            if isinstance(st, ast.Call) and isinstance(st.func, ast.Attribute) and _is_self_attr(st.func.value, "_fifo"):
+                if st.func.attr == "append" and fn.name == "push_rpc_request" and len(st.args) == 1:
+                    appends += 1
+                elif st.func.attr == "popleft" and not st.args:
+                    pops += 1
+                else:
+                    other.append(f"{fn.name}: _fifo.{st.func.attr}")
+    if len(sites) != 1 or sites[0][0] != "__init__":
+        raise TranslatorError(f"_fifo must be assigned exactly once, in _RpcThread.__init__; found {[(f, s_.lineno) for f, s_ in sites]}")
+    v = sites[0][1].value
+    if not (isinstance(v, ast.Call) and isinstance(v.func, ast.Name) and v.func.id == "deque"):
+        raise TranslatorError(f"line {v.lineno}: the request queue is not a collections.deque: {ast.unparse(v)}")
+    bound = None
+    args = list(v.args[1:2]) + [k.value for k in v.keywords if k.arg == "maxlen"]
+    if len(v.args) > 2 or any(k.arg not in ("maxlen",) for k in v.keywords) or (v.args and not (isinstance(v.args[0], (ast.List, ast.Tuple)) and not v.args[0].elts)):
+        raise TranslatorError(f"line {v.lineno}: deque construction not understood: {ast.unparse(v)}")
+    if args:
+        a = args[0]
+        if isinstance(a, ast.Constant) and a.value is None:
+            bound = None
+        elif isinstance(a, ast.Constant) and isinstance(a.value, int):
+            bound = a.value
+        elif isinstance(a, ast.Name) and a.id in consts:
+            bound = consts[a.id]
+        elif isinstance(a, ast.Attribute) and isinstance(a.value, ast.Name) and a.value.id in ("self", "_RpcThread") and ("_RpcThread." + a.attr) in consts:
+            bound = consts["_RpcThread." + a.attr]
+        else:
+            raise TranslatorError(f"line {v.lineno}: maxlen of the request queue is not a literal or a known constant: {ast.unparse(a)}")
+    if appends != 1 or pops < 1 or other:
+        raise TranslatorError(f"request queue is not used as append/popleft FIFO: appends in push_rpc_request={appends}, popleft={pops}, other uses={other}")
+    return {"bound": bound, "consts": {k: v_ for k, v_ in consts.items() if k.upper().startswith("MAX") or "MAX_" in k.upper()}}
+
+
 def _lean_str(s: str) -> str:
     if not all(32 <= ord(c) < 127 and c not in '"\\' for c in s):
         raise TranslatorError(f"placeholder string {s!r} is not plain ASCII")
@@ -258,6 +317,12 @@ def render_gen(t: dict) -> str:
         for rel in ("none", "same", "other"):
             key = (locked, "other" if (not locked and rel == "same") else rel)
             L.append(f"  | {'true' if locked else 'false'}, .{rel} => {_lean_gcell(t['guard'][key])}")
+    L.append("")
+    q = t.get("queue", {"bound": None, "consts": {}})
+    L.append("/-- `maxlen` of the worker's request queue `_RpcThread._fifo` (a `collections.deque` filled by `append` in")
+    L.append("`push_rpc_request`, emptied by `popleft`), from the AST; `none` = unbounded."
+             + (f"  MAX_* constants of rpc.py: {q['consts']}" if q["consts"] else "") + " -/")
+    L.append(f"def workerQueueBound : Option Nat := {'none' if q['bound'] is None else 'some ' + str(q['bound'])}")
     L.append("")
     L.append(f"def deniedPlaceholder : String := {_lean_str(t['denied'])}")
     L.append(f"def lockedPlaceholder : String := {_lean_str(t['lockedph'])}")
@@ -525,7 +590,17 @@ def _obj_class():
             def __init__(self, context, name):
                 super().__init__(context, name)
                 self.count = 0
+                self.entered = threading.Event()       # a `hold()` call is inside the body (the worker is parked)
+                self.release = threading.Event()       # set by the harness to let it go
                 C04TestObject.registry[(id(context), name)] = self
+
+            @rpc.rpc_method
+            def hold(self):
+                self.count += 1
+                n = self.count
+                self.entered.set()
+                self.release.wait(30.0)
+                return n
 
             @rpc.rpc_method
             def bump(self):
@@ -1750,6 +1825,347 @@ def fresh_process_oracle(outs) -> list:
 
 
 # ---------------------------------------------------------------------------
+# fault family: requests whose reply cannot be delivered; burst family: queue-depth boundaries
+# ---------------------------------------------------------------------------
+#
+# Both park the object's worker inside a slow method (`hold()`, released by the harness), queue requests behind it and
+# look at what the worker did with them through a tap on the two handlers (request, lock state before/after, reply).
+# Population: contexts srv(0), cliA(1), cliB(2), gui(3); proxies A(ctx1) B(ctx2) C(ctx3) S(ctx0).
+
+class _WorkerTap:
+    def __enter__(self):
+        import qmi.core.rpc as rpc
+        self.rpc = rpc
+        self.o_lock, self.o_meth = rpc._RpcThread._handle_lock_rpc_request, rpc._RpcThread._handle_method_rpc_request
+        self.log = []
+        o_lock, o_meth, log = self.o_lock, self.o_meth, self.log
+
+        def t_lock(th, request):
+            if request.destination_address.object_id != "obj":
+                return o_lock(th, request)
+            before = th._locking_token
+            reply = o_lock(th, request)
+            log.append(("lockreq", request.lock_action.name, request.lock_token, before, reply.lock_token, th._locking_token))
+            return reply
+
+        def t_meth(th, request):
+            if request.destination_address.object_id != "obj":
+                return o_meth(th, request)
+            before = th._locking_token
+            reply = o_meth(th, request)
+            log.append(("mreq", request.method_name, request.lock_token, before, reply.state.name,
+                        reply.result if reply.state.name == "RESULT_IS_VALUE" else None, th._locking_token))
+            return reply
+
+        rpc._RpcThread._handle_lock_rpc_request = t_lock
+        rpc._RpcThread._handle_method_rpc_request = t_meth
+        return self
+
+    def __exit__(self, *a):
+        self.rpc._RpcThread._handle_lock_rpc_request = self.o_lock
+        self.rpc._RpcThread._handle_method_rpc_request = self.o_meth
+        return False
+
+
+def _wait_until(pred, timeout=10.0) -> bool:
+    end = time.monotonic() + timeout
+    while time.monotonic() < end:
+        if pred():
+            return True
+        time.sleep(0.001)
+    return pred()
+
+
+def _qlen(w) -> int:
+    q = getattr(w.workers["obj"], "_fifo", None)
+    return len(q) if q is not None else -1
+
+
+_FAULT_STATES = ("free", "held-by-other-auto", "held-by-other-custom", "held-by-requester")
+_FAULT_REQS = ("lock-auto", "lock-custom", "unlock", "unlock-custom", "force", "islocked", "call")
+
+
+def _st(t) -> str:
+    return "-" if t is None else f"{t[0]}/{t[1]}"
+
+
+def run_fault(spec: dict):
+    """One undeliverable-reply scenario on real contexts.  Returns (driver lines, impl outputs, observation dict)."""
+    import qmi.core.rpc as rpc
+    hist = {"srv": "srv", "ctxs": ["cliA", "cliB", "gui"], "proxies": [1, 2, 3, 0], "ops": []}
+    A, B, C, S = 0, 1, 2, 3
+    w = _World(hist)
+    lines, outs, obs = [], [], {}
+    with _WorkerTap() as tap:
+        try:
+            w.start()
+            nonce = [getattr(c, "_instance_id", "") or "-" for c in w.contexts]
+            lines += [f"init srv {nonce[0]}"] + [f"ctx {nm} {nonce[i + 1]}" for i, nm in enumerate(hist["ctxs"])] + [f"proxy {c}" for c in hist["proxies"]]
+            outs += ["ok", "1", "2", "3", "0", "1", "2", "3"]
+
+            def op(o):
+                lines.append(_op_line(o))
+                outs.append(w.do_op(o))
+            state, req = spec["state"], spec["req"]
+            if state == "held-by-other-auto":
+                op(["lock", A, None])
+            elif state == "held-by-other-custom":
+                op(["lock", A, "x"])
+            elif state == "held-by-requester":
+                op(["lock", B, None])
+            parker = A if state.startswith("held-by-other") else B if state == "held-by-requester" else S
+            owner0 = w.owner()
+            # park the worker
+            hold_fut = w.proxies[parker].rpc_nonblocking.hold()
+            if not w.obj.entered.wait(10.0):
+                raise RuntimeError("worker did not enter hold()")
+            # the request whose reply will be undeliverable, issued by B without waiting for the answer
+            ctxB, pB = w.contexts[2], w.proxies[B]
+            n_before = len(tap.log)
+            if req == "call":
+                pB.rpc_nonblocking.bump()
+                tok = pB._lock_token
+            else:
+                if req == "lock-auto":
+                    tok = ctxB.make_unique_token()
+                    lines.append("burn 2")
+                    outs.append("ok")
+                elif req in ("lock-custom", "unlock-custom"):
+                    tok = rpc.QMI_LockTokenDescriptor(ctxB.name, "x")
+                else:
+                    tok = pB._lock_token
+                act = {"lock-auto": "ACQUIRE", "lock-custom": "ACQUIRE", "unlock": "RELEASE", "unlock-custom": "RELEASE",
+                       "force": "FORCE_RELEASE", "islocked": "QUERY"}[req]
+                fut = rpc.QMI_RpcFuture(ctxB, w.obj_addr, tok)
+                fut.send_lock_rpc_request_message(rpc.QMI_LockRpcAction[act])
+            if not _wait_until(lambda: _qlen(w) >= 1 or _qlen(w) < 0, 10.0):
+                raise RuntimeError("the request did not reach the worker queue")
+            # the requester disappears while its request waits behind the parked worker
+            ctxB.stop()
+            lines.append("stopctx 2")
+            outs.append("ok")
+            w.obj.release.set()
+            try:
+                hv = hold_fut.wait(10.0) if parker != B else None
+            except Exception as e:  # noqa
+                hv = f"exc:{type(e).__name__}"
+            if not _wait_until(lambda: len(tap.log) >= n_before + 2 or not w.workers["obj"].is_alive(), 10.0):
+                obs["unhandled"] = True
+            log = tap.log[n_before:]
+            for ev in log:
+                if ev[0] == "mreq":
+                    lines.append(f"mreq {_st(ev[2])}")
+                    outs.append(f"ran {ev[5]}" if ev[4] == "RESULT_IS_VALUE" else "locked" if ev[4] == "OBJECT_IS_LOCKED" else f"exc:{ev[4]}")
+                else:
+                    lines.append("req " + {"ACQUIRE": "acquire", "RELEASE": "release", "FORCE_RELEASE": "force", "QUERY": "query"}[ev[1]] + f" {_st(ev[2])}")
+                    outs.append(f"{_st(ev[4])} {_st(ev[5])}")
+            obs.update(owner0=owner0, tok=tok, log=log, hold=hv)
+            lines.append("owner")
+            outs.append(_show_tok(w.owner()))
+            obs["owner1"] = w.owner()
+            obs["count1"] = w.obj.count
+            probes = [["islocked", C], ["call", C, "b"], ["call", A, "n"], ["islocked", S], ["unlock", A, None if state != "held-by-other-custom" else "x"], ["islocked", C]]
+            obs["probes"] = []
+            for o in probes:
+                c0 = w.obj.count
+                op(o)
+                lines += ["probe", "owner"]
+                outs += [w.probe(), _show_tok(w.owner())]
+                obs["probes"].append((o, outs[-3], outs[-2], w.obj.count - c0))
+            obs["owner2"] = w.owner()
+        finally:
+            if w.obj is not None:
+                w.obj.release.set()
+            w.stop()
+    return lines, outs, obs
+
+
+def fault_oracle(spec: dict, obs: dict) -> list:
+    """An undeliverable reply changes nothing beyond what the request itself does (reference lock on the real tokens)."""
+    state, req = spec["state"], spec["req"]
+    tag = f"{req}:{state}"
+    if obs.get("unhandled"):
+        return [(f"undeliverable-reply:request-not-handled-or-worker-died:{tag}", "the worker did not get through the queued request")]
+    o0, tok = obs["owner0"], obs["tok"]
+    if req in ("lock-auto", "lock-custom"):
+        exp = tok if o0 is None else o0
+    elif req in ("unlock", "unlock-custom"):
+        exp = None if (o0 is not None and tok == o0) else o0
+    elif req == "force":
+        exp = None
+    else:
+        exp = o0
+    fails = []
+    if obs["owner1"] != exp:
+        fails.append((f"undeliverable-reply-changed-lock:{tag}", f"owner before {o0}, request token {tok}: owner afterwards {obs['owner1']}, "
+                      f"the request by itself leaves {exp}"))
+        return fails
+    # the probes must agree with that state
+    owner = exp
+    tokA = None if state not in ("held-by-other-auto", "held-by-other-custom") else o0
+    for (o, out, pr, ran) in obs["probes"]:
+        if not pr.startswith("alive") or out == "hang":
+            return [(f"undeliverable-reply:object-disabled:{tag}", f"after the fault {o} -> {out}, probe {pr}")]
+        if o[0] == "islocked" and (out == "true") != (owner is not None):
+            return [(f"undeliverable-reply:is_locked-untruthful:{tag}", f"{o} -> {out}, owner {owner}")]
+        if o[0] == "call":
+            carried = tokA if o[1] == 0 else None
+            should = owner is None or carried == owner
+            if out.startswith("ran") != should or (ran != (1 if should else 0)):
+                kind = "foreign-call-executed" if not should else "owner-call-refused"
+                return [(f"undeliverable-reply:{kind}:{tag}", f"{o} -> {out} (body ran {ran}x), owner {owner}, call carries {carried}")]
+        if o[0] == "unlock":
+            if owner is not None and tokA == owner:
+                owner = None
+    return fails
+
+
+def fault_specs(quick: bool) -> list:
+    return [{"kind": "fault", "state": st, "req": rq} for st in _FAULT_STATES for rq in _FAULT_REQS]
+
+
+def live_queue_bounds() -> list:
+    """Finite bounds of the live worker queue and every MAX_* integer of rpc.py / _RpcThread, read on this run."""
+    import qmi.core.rpc as rpc
+    b = []
+    th = object.__new__(rpc._RpcThread)
+    try:
+        rpc._RpcThread.__init__(th, None, lambda: None)
+        ml = getattr(getattr(th, "_fifo", None), "maxlen", None)
+        if isinstance(ml, int):
+            b.append(ml)
+    except Exception:
+        pass
+    for holder in (rpc, rpc._RpcThread, rpc.RpcObjectManager):
+        for nm in dir(holder):
+            v = getattr(holder, nm, None)
+            if "MAX" in nm.upper() and isinstance(v, int) and not isinstance(v, bool) and 0 < v <= 200000:
+                b.append(v)
+    return sorted(set(b))
+
+
+def run_burst(spec: dict):
+    """Lock-protocol requests queued behind a parked worker, then a burst of un-waited calls exceeding every bound."""
+    import qmi.core.rpc as rpc
+    from qmi.core.exceptions import QMI_RpcTimeoutException, QMI_RuntimeException
+    hist = {"srv": "srv", "ctxs": ["cliA", "cliB", "gui"], "proxies": [1, 2, 3, 0], "ops": []}
+    A, B, C, S = 0, 1, 2, 3
+    w = _World(hist)
+    lines, outs, obs = [], [], {"answers": {}, "n": spec["n"]}
+    with _WorkerTap() as tap:
+        try:
+            w.start()
+            nonce = [getattr(c, "_instance_id", "") or "-" for c in w.contexts]
+            lines += [f"init srv {nonce[0]}"] + [f"ctx {nm} {nonce[i + 1]}" for i, nm in enumerate(hist["ctxs"])] + [f"proxy {c}" for c in hist["proxies"]]
+            outs += ["ok", "1", "2", "3", "0", "1", "2", "3"]
+            if spec["variant"] == "held":
+                lines.append(_op_line(["lock", A, None]))
+                outs.append(w.do_op(["lock", A, None]))
+            parker = A if spec["variant"] == "held" else S
+            n0 = len(tap.log)
+            hold_fut = w.proxies[parker].rpc_nonblocking.hold()
+            if not w.obj.entered.wait(10.0):
+                raise RuntimeError("worker did not enter hold()")
+            futs = []         # (label, future) in queue order
+
+            def lockreq(ctx_i, tok, act):
+                q0 = _qlen(w)
+                f = rpc.QMI_RpcFuture(w.contexts[ctx_i], w.obj_addr, tok)
+                f.send_lock_rpc_request_message(rpc.QMI_LockRpcAction[act])
+                futs.append((act, f))
+                _wait_until(lambda: _qlen(w) > q0 or _qlen(w) < 0, 10.0)      # it is in the queue before anything else is sent
+            if spec["variant"] == "held":
+                lockreq(1, w.proxies[A]._lock_token, "RELEASE")
+            tokB = w.contexts[2].make_unique_token()
+            lines.append("burn 2")
+            outs.append("ok")
+            lockreq(2, tokB, "ACQUIRE")
+            lockreq(3, None, "QUERY")
+            caller = w.proxies[A] if spec["variant"] == "held" else w.proxies[C]   # A still carries its (then stale) token
+            for _ in range(spec["n"]):
+                futs.append(("call", caller.rpc_nonblocking.bump()))
+            f = rpc.QMI_RpcFuture(caller._context, w.obj_addr, None)
+            f.send_lock_rpc_request_message(rpc.QMI_LockRpcAction.QUERY)
+            futs.append(("QUERY", f))
+            # everything sent must be waiting behind the parked worker before it is let go (a bounded queue shows here)
+            _wait_until(lambda: _qlen(w) >= len(futs) or _qlen(w) < 0, 5.0)
+            obs["qlen_parked"] = _qlen(w)
+            w.obj.release.set()
+            answers = []
+            # FIFO: once the last request (sent on the burst's own connection) is answered, everything before it has been
+            # handled; a request still unanswered then is lost - no point in waiting long for each of them
+            last_ok = True
+            try:
+                futs[-1][1].wait(30.0)
+            except QMI_RpcTimeoutException:
+                last_ok = False
+            except Exception:
+                pass
+            grace = 2.0
+            for idx, (label, fu) in enumerate(futs):
+                if idx == len(futs) - 1:
+                    answers.append("answered" if last_ok else "hang")
+                    continue
+                try:
+                    v = fu.wait(grace)
+                    answers.append(f"ran {v}" if label == "call" else "answered")
+                except QMI_RpcTimeoutException:
+                    answers.append("hang")
+                    grace = 0.02
+                except QMI_RuntimeException as e:
+                    answers.append("locked" if "locked" in str(e) else f"exc:{type(e).__name__}")
+                except Exception as e:  # noqa
+                    answers.append(f"exc:{type(e).__name__}")
+            try:
+                hold_fut.wait(10.0)
+            except Exception:
+                pass
+            obs["labels"] = [l for l, _ in futs]
+            obs["answers"] = answers
+            log = tap.log[n0:]
+            obs["handled"] = len(log)
+            amap = {"ACQUIRE": "acquire", "RELEASE": "release", "FORCE_RELEASE": "force", "QUERY": "query"}
+            for ev in log:
+                if ev[0] == "mreq":
+                    lines.append(f"mreq {_st(ev[2])}")
+                    outs.append(f"ran {ev[5]}" if ev[4] == "RESULT_IS_VALUE" else "locked" if ev[4] == "OBJECT_IS_LOCKED" else f"exc:{ev[4]}")
+                else:
+                    lines.append(f"req {amap[ev[1]]} {_st(ev[2])}")
+                    outs.append(f"{_st(ev[4])} {_st(ev[5])}")
+            lines += ["owner", "probe"]
+            outs += [_show_tok(w.owner()), w.probe()]
+            obs["owner"] = w.owner()
+            obs["tokB"] = tokB
+            obs["count"] = w.obj.count
+        finally:
+            if w.obj is not None:
+                w.obj.release.set()
+            w.stop()
+    return lines, outs, obs
+
+
+def burst_oracle(spec: dict, obs: dict) -> list:
+    tag = f"{spec['variant']}:n={'over-bound' if spec.get('over') else 'fixed'}"
+    ans, labels = obs["answers"], obs["labels"]
+    fails = []
+    lost = [i for i, a in enumerate(ans) if a == "hang"]
+    if lost:
+        kinds = sorted({labels[i] for i in lost})
+        fails.append((f"queue-overflow:request-never-answered:{'+'.join(kinds)}:{tag}",
+                      f"{len(lost)} of {len(ans)} queued requests got no answer (first: #{lost[0]} {labels[lost[0]]}); queue length while parked {obs.get('qlen_parked')}"))
+    if obs["handled"] != len(ans) + 1:
+        fails.append((f"queue-overflow:worker-handled-{'fewer' if obs['handled'] < len(ans) + 1 else 'more'}-requests-than-sent:{tag}",
+                      f"{len(ans) + 1} requests sent (incl. the parking call), the worker handled {obs['handled']}"))
+    # the ACQUIRE queued before the burst locks the (then free) object: none of the burst's calls may execute
+    ran = sum(1 for a, l in zip(ans, labels) if l == "call" and a.startswith("ran"))
+    if ran:
+        fails.append((f"queue-overflow:foreign-call-executed:{tag}", f"{ran} of {spec['n']} calls queued behind a lock request executed"))
+    if obs["owner"] != obs["tokB"] and not fails:
+        fails.append((f"queue-overflow:lock-request-lost:{tag}", f"owner {obs['owner']}, the queued ACQUIRE carried {obs['tokB']}"))
+    return fails
+
+
+# ---------------------------------------------------------------------------
 # the check
 # ---------------------------------------------------------------------------
 
@@ -1791,6 +2207,7 @@ class C04(Prop):
     def translate(self, ctx: Ctx):
         import random
         t = build_tables(random.Random(f"C04-translate:{ctx.seed}"))
+        t["queue"] = build_queue_facts()
         core.write_if_changed(GEN_FILE, render_gen(t))
         self._tables = t
         tp = build_token_prog()
@@ -1957,6 +2374,49 @@ class C04(Prop):
             spec, detail = lst[0]
             res.failures.append(Failure(sig, f"{sig}: {spec}: {detail}", {"kind": "retry", "spec": spec, "signature": sig}))
 
+    # -- fault + burst families ------------------------------------------------------------------------
+    def _fault_family(self, ctx: Ctx, res: Result, quick: bool):
+        all_lines, all_outs, spans = [], [], []
+        ffail: dict = {}
+        with _Instrumented():
+            for spec in fault_specs(quick):
+                lines, outs, obs = run_fault(spec)
+                res.note_case(("fault", spec["state"], spec["req"]), nontrivial=True)
+                res.count("fault_scenarios")
+                res.traces_validated += 1
+                for (sig, detail) in fault_oracle(spec, obs):
+                    ffail.setdefault(sig, []).append((spec, detail))
+                spans.append((len(all_lines), len(lines), spec))
+                all_lines += lines
+                all_outs += outs
+            bounds = live_queue_bounds()
+            res.extra["live_queue_bounds"] = bounds
+            sizes = [(b + 60, True) for b in bounds] or [(ctx.scale(2500, 6000), False)]
+            for (n, over) in sizes:
+                for variant in ("free", "held"):
+                    spec = {"kind": "burst", "variant": variant, "n": n, "over": over}
+                    lines, outs, obs = run_burst(spec)
+                    res.note_case(("burst", variant, n), nontrivial=True)
+                    res.count("burst_scenarios")
+                    res.count("burst_requests", n)
+                    res.traces_validated += 1
+                    for (sig, detail) in burst_oracle(spec, obs):
+                        ffail.setdefault(sig, []).append((spec, detail))
+                    spans.append((len(all_lines), len(lines), spec))
+                    all_lines += lines
+                    all_outs += outs
+        model = LeanDriver(self.driver).run(all_lines)
+        kx = diff_streams(all_lines, all_outs, model)
+        if kx is not None:
+            for (start, ln, spec) in spans:
+                if start <= kx < start + ln:
+                    res.broken.append(Broken("correspondence", "Lock model vs worker under faults / bursts",
+                                             f"{all_lines[kx]!r}: impl={all_outs[kx]!r} model={model[kx]!r}", case=spec))
+                    break
+        for sig, lst in ffail.items():
+            spec, detail = lst[0]
+            res.failures.append(Failure(sig, f"{sig}: {spec}: {detail}", {**spec, "signature": sig}))
+
     # -- fresh-process family ------------------------------------------------------------------------
     def _fresh_process_family(self, ctx: Ctx, res: Result):
         for (k, names) in ((ALIGN_SEED, ["measure", "measure"]), (0, ["cli"])):
@@ -1990,6 +2450,7 @@ class C04(Prop):
         self._conc_family(ctx, res, ctx.quick)
         self._retry_family(ctx, res, ctx.quick)
         self._fresh_process_family(ctx, res)
+        self._fault_family(ctx, res, ctx.quick)
         # malformed driver input
         drv = LeanDriver(self.driver)
         lines = ["init srv a0", "ctx cli b1", "proxy 1"] + [l for l, _ in _MALFORMED]
@@ -2060,6 +2521,16 @@ class C04(Prop):
 
     # -- replay -----------------------------------------------------------------------------------
     def replay(self, ctx: Ctx, rp: dict):
+        if rp.get("kind") in ("fault", "burst"):
+            with _Instrumented():
+                if rp["kind"] == "fault":
+                    fs = fault_oracle(rp, run_fault(rp)[2])
+                else:
+                    fs = burst_oracle(rp, run_burst(rp)[2])
+            if not fs:
+                return None
+            sig, detail = next(((s_, d) for (s_, d) in fs if s_ == rp.get("signature")), fs[0])
+            return Failure(sig, f"{sig}: {detail}", rp)
         if rp.get("kind") == "procs":
             fs = fresh_process_oracle(run_fresh_processes(rp["seed_value"], rp["names"]))
             return Failure(fs[0][0], f"{fs[0][0]}: {fs[0][1]}", rp) if fs else None
